@@ -53,6 +53,10 @@ class FakeTransport:
         self.fail_next_write: BaseException | None = None
         self.reading = True
         self.closed = False
+        # seconds by which the clock that stamps received packets (Packet.dtm) differs from this transport's own
+        # _dt_now(): 0 = a serial port (PortTransport stamps with its own clock); non-zero = a transport whose
+        # packets carry a remote device's time (c.f. MqttTransport._on_message: dtm = payload["ts"])
+        self.stamp_offset = 0.0
 
     def get_extra_info(self, name, default=None):
         return self._info.get(name, default)
@@ -78,7 +82,10 @@ class FakeTransport:
 
     def make_pkt(self, frame: str, rssi: str = "045"):
         from ramses_tx.packet import Packet
-        return Packet(VDT.now(), f"{rssi} {frame}")
+        dtm = VDT.now()
+        if self.stamp_offset:
+            dtm += _dtmod.timedelta(seconds=self.stamp_offset)
+        return Packet(dtm, f"{rssi} {frame}")
 
     def rx(self, frame: str, delay: float = 0.0) -> None:
         """Deliver a frame to the protocol the way a transport does (call_soon(pkt_received))."""
